@@ -155,7 +155,10 @@ def run_shard(spec):
             stats = {}
             dn = rng.choice([None, ("wr", "rd"), ("pix", "sync"), ("sync", "usb")])
             stats["domain-names:" + ("default" if dn is None else "+".join(dn))] = stats.get("domain-names:" + ("default" if dn is None else "+".join(dn)), 0) + 1
-            ex = F.random_walk(maker(cls, width, depth, domains=dn), width, False, buffered, spec["events"], rng, stats,
+            mk = maker(cls, width, depth, domains=dn)
+            mk.reset_less = rng.choice([(False, False), (True, False), (False, True), (True, True)])
+            stats["reset-less-domains(w,r):" + str(mk.reset_less)] = 1
+            ex = F.random_walk(mk, width, False, buffered, spec["events"], rng, stats,
                                drain_bound=BOUND[cls])
             st = ex.stats
             st["transitions"] = spec["events"]
